@@ -613,7 +613,8 @@ Qed.
 (* the guard released before the side-effects append: frames out of order *)
 Definition bad_cfg_release_early : cfg := {|
   permits := 1; shared_lock := true; stray_sites := 0;
-  lockfree := lockfree ref_cfg; registered := registered ref_cfg;
+  class_default_lock := true; class_listed := class_listed ref_cfg;
+  registered := registered ref_cfg; aliases := aliases ref_cfg;
   span_tool := [OAcquire; ORun; OEmit; ORelease; OAppend];
   span_ro := span_ro ref_cfg; span_loop_tool := span_loop_tool ref_cfg;
   span_loop_ro := span_loop_ro ref_cfg; span_ckpt := span_ckpt ref_cfg; span_task := span_task ref_cfg
@@ -622,7 +623,8 @@ Definition bad_cfg_release_early : cfg := {|
 (* the tool started before the guard is taken: two mutating calls in progress *)
 Definition bad_cfg_acquire_late : cfg := {|
   permits := 1; shared_lock := true; stray_sites := 0;
-  lockfree := lockfree ref_cfg; registered := registered ref_cfg;
+  class_default_lock := true; class_listed := class_listed ref_cfg;
+  registered := registered ref_cfg; aliases := aliases ref_cfg;
   span_tool := [ORun; OAcquire; OEmit; OAppend; ORelease];
   span_ro := span_ro ref_cfg; span_loop_tool := span_loop_tool ref_cfg;
   span_loop_ro := span_loop_ro ref_cfg; span_ckpt := span_ckpt ref_cfg; span_task := span_task ref_cfg
@@ -662,3 +664,25 @@ Proof.
   - apply compile_span_no_acq. apply (so_ro_noacq _ W).
   - apply compile_span_no_acq. apply (so_loop_ro_noacq _ W).
 Qed.
+
+(* an allow list that forgets the alias `shell`: the obligation fails *)
+Definition bad_cfg_alias_forgotten : cfg := {|
+  permits := 1; shared_lock := true; stray_sites := 0;
+  class_default_lock := false; class_listed := [s_write; s_apply_patch; s_bash];
+  registered := registered ref_cfg; aliases := aliases ref_cfg;
+  span_tool := span_tool ref_cfg; span_ro := span_ro ref_cfg; span_loop_tool := span_loop_tool ref_cfg;
+  span_loop_ro := span_loop_ro ref_cfg; span_ckpt := span_ckpt ref_cfg; span_task := span_task ref_cfg
+|}.
+
+Definition good_cfg_allow_list : cfg := {|
+  permits := 1; shared_lock := true; stray_sites := 0;
+  class_default_lock := false; class_listed := [s_write; s_apply_patch; s_bash; s_shell];
+  registered := registered ref_cfg; aliases := aliases ref_cfg;
+  span_tool := span_tool ref_cfg; span_ro := span_ro ref_cfg; span_loop_tool := span_loop_tool ref_cfg;
+  span_loop_ro := span_loop_ro ref_cfg; span_ckpt := span_ckpt ref_cfg; span_task := span_task ref_cfg
+|}.
+
+Lemma alias_forgotten :
+  wf_cfg bad_cfg_alias_forgotten = false /\ requires_lock bad_cfg_alias_forgotten s_shell = false
+  /\ wf_cfg good_cfg_allow_list = true.
+Proof. vm_compute. auto. Qed.
